@@ -190,3 +190,13 @@ func init() {
 		},
 	}
 }
+
+func init() {
+	properties["C07"] = Property{
+		Level: "exploration",
+		Rule:  "one case = one timed scenario: item kind {fact, rule} x expiry encoding {expires numeric, expires RFC3339, ttl number, ttl duration, none} x state x observation schedule (reads by get/search/dispatch/list, reloads before and after the expiry instant, reload late enough to expose a restarted ttl, reads dense around the boundary second), expiry 3-4 s ahead, 60 scenarios in parallel on separate locations; plus already-expired writes; every observation carries [before, after] in UNIX seconds; non-trivial = at least one observation certainly before and one certainly after the expiry instant; distinct by the scenario tuple",
+		Floor: [2]int{24, 60},
+		Assumptions: []string{"the code's clock is whole seconds: an observation straddling the expiry second is accepted either way", "a rule with an RFC3339 expires is refused by AddRule (Rule.expires is a number); a refused write is recorded, not judged"},
+		Stages: []Stage{{Name: "timed", Pkg: "./mon/c07", Procs: 4, Batches: [2]int{1, 2}, TimeoutS: [2]int{300, 900}}},
+	}
+}
